@@ -94,6 +94,7 @@ static PyObject *str_uncached_lookupAll = NULL;
 static PyObject *str_uncached_subscriptions = NULL;
 static PyObject *strchanged = NULL;
 static PyObject *str__adapt__ = NULL;
+static PyObject *strprovidedBy = NULL;
 
 /* Static strings, used to invoke PyObject_GetItem
  *
@@ -132,6 +133,7 @@ define_static_strings()
     DEFINE_STATIC_STRING(_uncached_subscriptions);
     DEFINE_STATIC_STRING(changed);
     DEFINE_STATIC_STRING(__adapt__);
+    DEFINE_STATIC_STRING(providedBy);
 #undef DEFINE_STATIC_STRING
 
     return 0;
@@ -742,6 +744,28 @@ IB__adapt__(PyObject* self, PyObject* obj)
     int implements;
     Py_ssize_t i;
 
+    /* ``providedBy`` can be overridden (``interfacemethod``, a subclass of
+       ``InterfaceClass``). The Python version calls ``self.providedBy(obj)``;
+       only the implementation from this module is inlined below. */
+    adapter = PyObject_GetAttr((PyObject*)Py_TYPE(self), strprovidedBy);
+    if (adapter == NULL)
+        return NULL;
+    implements =
+      Py_IS_TYPE(adapter, &PyMethodDescr_Type) &&
+      ((PyMethodDescrObject*)adapter)->d_method->ml_meth ==
+        (PyCFunction)SB_providedBy;
+    Py_DECREF(adapter);
+    if (!implements) {
+        adapter = PyObject_CallMethodObjArgs(self, strprovidedBy, obj, NULL);
+        if (adapter == NULL)
+            return NULL;
+        implements = PyObject_IsTrue(adapter);
+        Py_DECREF(adapter);
+        if (implements < 0)
+            return NULL;
+        goto decided;
+    }
+
     module = _get_module(Py_TYPE(self));
 
     decl = providedBy(module, obj);
@@ -774,6 +798,7 @@ IB__adapt__(PyObject* self, PyObject* obj)
         Py_DECREF(r);
     }
 
+decided:
     if (implements) {
         Py_INCREF(obj);
         return obj;
